@@ -74,7 +74,11 @@ def judge(chk, sc, o):
         wrong = [a for a in last.get('apply', []) if a[1] == 'ok' and a[2] != oracles.value_of(a[0])]
         if wrong:
             chk.violation('apply_values_correct_after_death', case, {'wrong': wrong, 'injected': inj}, 'every other task completes correctly', input_class='apply_death_value')
-        if len(bad) > 1 or any(a[2] != 'RuntimeError' for a in bad):
+        if bad and not inj.get('in_user_function') and inj.get('victim_phase') == 'idle' and len(bad) >= 1:
+            # the victim was not running any task, yet the task with job id 0 was failed
+            chk.violation('apply_death_isolated', case, {'failed': bad, 'injected': inj}, 'an idle worker\'s death fails no task',
+                          input_class='apply_death_job0_alias')
+        elif len(bad) > 1 or any(a[2] != 'RuntimeError' for a in bad):
             window = inj.get('victim_phase') in ('apply_pill_taken', 'apply_task_taken')
             chk.violation('apply_death_isolated', case, {'failed': bad, 'injected': inj}, 'at most the one task the dead worker was running fails, with RuntimeError',
                           input_class='apply_death_dequeue_window' if window else 'apply_death')
